@@ -1627,7 +1627,7 @@ func caseKind(i int, tier string, rng *rand.Rand) string {
 	if tier == "thorough" && i%40 == 7 {
 		return "pages"
 	}
-	if tier == "thorough" && i%40 == 27 {
+	if tier == "thorough" && i%80 == 27 {
 		return "pages-reopen"
 	}
 	switch r := rng.Intn(100); {
